@@ -272,3 +272,90 @@ Qed.
 Lemma glob_sorted ls pat : Sorted (fun a b => bytes_leb a b = true) (ov_glob ls pat).
 Proof. unfold ov_glob. apply map_fst_sorted, sort_sorted. Qed.
 (* strictly increasing: sorted and duplicate-free *)
+
+(* ---- an overlay used as a layer of another overlay ---- *)
+(* the table of what the overlay of [ls] answers on given universes of names, directories and patterns *)
+Definition as_layer (ls : list layer) (ps ds pats : list bytes) : layer :=
+  {| opens := flat_map (fun p => match ov_open ls p with Some e => [(p, e)] | None => [] end) ps;
+     readdirs := flat_map (fun d => match ov_readdir ls d with Some es => [(d, es)] | None => [] end) ds;
+     globs := map (fun pat => (pat, ov_glob ls pat)) pats |}.
+Definition mem (p : bytes) (ps : list bytes) : bool := existsb (bytes_eqb p) ps.
+
+Lemma assoc_table {A} (f : bytes -> option A) p ps :
+  assoc p (flat_map (fun q => match f q with Some e => [(q, e)] | None => [] end) ps) = if mem p ps then f p else None.
+Proof.
+  induction ps as [|q ps IH]; cbn; [reflexivity|].
+  destruct (f q) as [e|] eqn:Eq; cbn.
+  - destruct (bytes_eqb_spec p q) as [->|Hne]; cbn; [now rewrite Eq|exact IH].
+  - rewrite IH. destruct (bytes_eqb_spec p q) as [->|Hne]; cbn; [|reflexivity].
+    rewrite Eq. now destruct (mem q ps).
+Qed.
+Lemma as_layer_open ls ps ds pats p : mem p ps = true -> l_open (as_layer ls ps ds pats) p = ov_open ls p.
+Proof. intro H. unfold l_open, as_layer. cbn [opens]. now rewrite assoc_table, H. Qed.
+Lemma as_layer_readdir ls ps ds pats d : mem d ds = true -> l_readdir (as_layer ls ps ds pats) d = ov_readdir ls d.
+Proof. intro H. unfold l_readdir, as_layer. cbn [readdirs]. now rewrite assoc_table, H. Qed.
+Lemma as_layer_glob ls ps ds pats pat : mem pat pats = true -> l_glob (as_layer ls ps ds pats) pat = ov_glob ls pat.
+Proof.
+  unfold l_glob, as_layer. cbn [globs]. induction pats as [|q r IH]; intro H; [discriminate|]. cbn in *.
+  destruct (bytes_eqb_spec pat q) as [E|Hne]; [now rewrite E|]. now apply IH.
+Qed.
+
+Lemma ov_open_app a b p : ov_open (a ++ b) p = match ov_open a p with Some e => Some e | None => ov_open b p end.
+Proof. induction a as [|l a IH]; cbn; [reflexivity|]. now destruct (l_open l p). Qed.
+(* Open through a nested overlay is Open on the flattened stack *)
+Theorem nested_open a b ps ds pats p : mem p ps = true ->
+  ov_open (as_layer a ps ds pats :: b) p = ov_open (a ++ b) p.
+Proof. intro H. cbn [ov_open]. now rewrite (as_layer_open a ps ds pats p H), ov_open_app. Qed.
+
+Lemma served_app a b d n : served (a ++ b) d n = match served a d n with Some e => Some e | None => served b d n end.
+Proof.
+  induction a as [|l a IH]; cbn; [reflexivity|].
+  destruct (l_readdir l d) as [es|]; [|exact IH]. destruct (first_named n es); [reflexivity|exact IH].
+Qed.
+Lemma first_named_of_listing ls d es n : ov_readdir ls d = Some es -> first_named n es = served ls d n.
+Proof.
+  intro H. destruct (served ls d n) as [e|] eqn:Es.
+  - assert (Hin : In e es).
+    { apply (readdir_served ls d es H e). destruct (proj1 (served_first ls d n e) Es) as (pre & l & post & esl & _ & _ & Hf & _).
+      destruct (first_named_Some _ _ _ Hf) as [_ Hn]. now rewrite Hn. }
+    assert (Hfst : fst e = n).
+    { destruct (proj1 (served_first ls d n e) Es) as (pre & l & post & esl & _ & _ & Hf & _). exact (proj2 (first_named_Some _ _ _ Hf)). }
+    pose proof (readdir_names_unique ls d es H) as Hn.
+    apply (nodup_get_in es Hn e) in Hin. now rewrite Hfst in Hin.
+  - apply first_named_None. intro Hin. unfold names in Hin. apply in_map_iff in Hin. destruct Hin as [e [He Hie]].
+    apply (readdir_served ls d es H e) in Hie. rewrite He in Hie. congruence.
+Qed.
+Lemma served_none_error ls d : ov_readdir ls d = None -> forall n, served ls d n = None.
+Proof.
+  intros H n. apply readdir_error_iff in H. induction H as [|l r Hl _ IH]; cbn; [reflexivity|]. now rewrite Hl.
+Qed.
+(* ReadDir through a nested overlay: the same names are served, each by the same entry, and it fails in the
+   same cases, as on the flattened stack *)
+Theorem nested_readdir_served a b ps ds pats d n : mem d ds = true ->
+  served (as_layer a ps ds pats :: b) d n = served (a ++ b) d n.
+Proof.
+  intro H. cbn [served]. rewrite (as_layer_readdir a ps ds pats d H), served_app.
+  destruct (ov_readdir a d) as [es|] eqn:E.
+  - now rewrite (first_named_of_listing a d es n E).
+  - now rewrite (served_none_error a d E n).
+Qed.
+Theorem nested_readdir_error a b ps ds pats d : mem d ds = true ->
+  (ov_readdir (as_layer a ps ds pats :: b) d = None <-> ov_readdir (a ++ b) d = None).
+Proof.
+  intro H. rewrite !readdir_error_iff, Forall_app. split.
+  - intro F. inversion F as [|x r Hx Hr]; subst. rewrite (as_layer_readdir a ps ds pats d H) in Hx.
+    split; [now apply readdir_error_iff|assumption].
+  - intros [Fa Fb]. constructor; [|assumption]. rewrite (as_layer_readdir a ps ds pats d H). now apply readdir_error_iff.
+Qed.
+Theorem nested_glob a b ps ds pats pat x : mem pat pats = true ->
+  (In x (ov_glob (as_layer a ps ds pats :: b) pat) <-> In x (ov_glob (a ++ b) pat)).
+Proof.
+  intro H. rewrite !glob_union. split.
+  - intros [l [[<-|Hl] Hx]].
+    + rewrite (as_layer_glob a ps ds pats pat H) in Hx. apply glob_union in Hx. destruct Hx as [l' [Hl' Hx']].
+      exists l'. split; [apply in_or_app; now left|assumption].
+    + exists l. split; [apply in_or_app; now right|assumption].
+  - intros [l [Hl Hx]]. apply in_app_or in Hl. destruct Hl as [Hl|Hl].
+    + exists (as_layer a ps ds pats). split; [now left|]. rewrite (as_layer_glob a ps ds pats pat H). apply glob_union. eauto.
+    + exists l. split; [now right|assumption].
+Qed.
